@@ -30,7 +30,7 @@ def n_hist(tier):
 
 def plan(tier):
     # histories + emitted-code view cases (see emitted_views)
-    return n_hist(tier) + (300 if tier == "quick" else 6000)
+    return n_hist(tier) + (600 if tier == "quick" else 6000)
 
 
 VIEW_OPS = {"view", "slice", "index", "rtindex", "concat"}
